@@ -111,3 +111,23 @@ def density_scatter(x: Obj("ndarray"), y: Obj("ndarray"), ax: OneOf(NoneType, Ob
                        distinct_points(x, y)[1][draw_order(x, y, sort)] if sort else distinct_points(x, y)[1]),
             name="post[colour: the multiplicity of the point]")
     ensures(same_value(result, the_axes(ax)), name="post[returns the axes]")
+
+
+# ---- seqlogos (equal-length sequences: the external aligner is not involved)
+
+@contract("pyrepseq.plotting.seqlogos", props=["C19"], scope="seqlogos_calls")
+def seqlogos(seqs: Seq(Str, "list", min_len=1), ax: OneOf(NoneType, Obj("Axes")), kwargs: KwargsT()):
+    requires(len(seqs[0]) >= 1 and forall(TInt, lambda k: implies(0 <= k and k < len(seqs), len(seqs[k]) == len(seqs[0]))))
+    raises(None)
+    # returns (axes, counts): counts is the per-position, per-residue count matrix of exactly the given sequences, and that matrix is
+    # what is drawn, on the given axes or on a new one
+    ensures(is_count_matrix_of(result[1], seqs), name="post[the returned matrix counts the given sequences]")
+    ensures(same_value(result[0], ax if ax is not None else new_axes()), name="post[returns the axes drawn on]")
+    ensures(logo_drawn_on(result[1], result[0]), name="post[that matrix is drawn on those axes]")
+
+
+# the external aligner (mafft via subprocess) is outside the code under contract: where a verified function can reach it, its result is an
+# arbitrary list of strings
+@contract("pyrepseq.util.align_seqs", trusted=True, props=[])
+def align_seqs(seqs: Seq(Str, "list")) -> Seq(Str, "list"):
+    note("external process (mafft): not verified, no post-condition assumed")
